@@ -27,7 +27,7 @@ import fw
 
 ID = 'C14'
 LEVEL = 'proof'
-LEAN_TARGETS = ['BareProofs.C14']
+LEAN_TARGETS = ['BareProofs.C14', 'BareProofs.C14Regex']
 DRIVER = 'drv_c14'
 DRIVER_ROOT = 'Drv.C14'
 GEN = ['Regex']
@@ -219,10 +219,13 @@ def keys_in_text_order_sorted(text):
 _INT_TOKEN = re.compile(r'-?(?:0|[1-9]\d*)\Z')
 
 
-def oracle_failures(impl, v, indent):
+def oracle_failures(impl, v, indent, extra=None):
     """All property oracles on the real implementation for value v and indent (None or int).
-    -> list of (oracle, expected, actual); empty when the property holds on this input."""
+    -> (list of (oracle, expected, actual) - empty when the property holds on this input -, text of value_json or None).
+    extra['jsonStringify'] receives what the library function returned (correspondence only: a different but valid layout is not
+    a violation of the property)."""
     fails = []
+    extra = {} if extra is None else extra
     value, library = impl['value'], impl['library']
     try:
         text = value.value_json(v, indent)
@@ -235,10 +238,11 @@ def oracle_failures(impl, v, indent):
     try:
         args = [v] if indent is None else [v, float(indent) if indent % 2 else indent]
         lib_text = library._json_stringify(args, None)  # pylint: disable=protected-access
+        extra['jsonStringify'] = lib_text
     except Exception as exc:  # pylint: disable=broad-except
-        lib_text = f'{type(exc).__name__}: {exc}'
-    if lib_text != text:
-        fails.append(('jsonStringify-is-value_json', text[:300], str(lib_text)[:300]))
+        lib_text = None
+        extra['jsonStringify'] = f'{type(exc).__name__}: {exc}'
+        fails.append(('serialises', 'jsonStringify returns a JSON text', extra['jsonStringify']))
 
     # 1. valid JSON that a standard parser maps back to v
     try:
@@ -272,9 +276,13 @@ def oracle_failures(impl, v, indent):
         fails.append(('strings-untouched', 'terminated literals', text[:300]))
     else:
         lits, words = toks
-        want_lits = [json.dumps(s) for s in strs]
-        if lits != want_lits:
-            fails.append(('strings-untouched', want_lits[:20], lits[:20]))
+        # every literal token denotes exactly the original string / key (standard decoder on the token alone)
+        try:
+            got_strs = [json.loads(lit) for lit in lits]
+        except ValueError as exc:
+            got_strs = f'{type(exc).__name__}: {exc}'
+        if got_strs != strs:
+            fails.append(('strings-untouched', strs[:20], got_strs[:20] if isinstance(got_strs, list) else got_strs))
         if len(words) != len(nums):
             fails.append(('number-tokens', [repr(x) for x in nums][:20], words[:20]))
         else:
@@ -285,7 +293,8 @@ def oracle_failures(impl, v, indent):
                 except ValueError:
                     val_ok = False
                 if not val_ok or (integral and not _INT_TOKEN.match(w)) or (isinstance(x, int) and w != str(x)):
-                    fails.append(('integral-no-fraction' if val_ok else 'number-value', repr(x), w))
+                    fails.append(('integral-no-fraction' if val_ok else 'number-value',
+                                  (str(int(x)) if x != 0 or isinstance(x, int) or math.copysign(1.0, x) > 0 else '-0') if integral else repr(x), w))
                     break
     return fails, text
 
@@ -405,13 +414,17 @@ def run_encode_cases(ctx, st, stream, cases, pool):
     texts = []
     for (v, ind, tags), req, resp in zip(cases, reqs, resps):
         case = {'value': req['value'], 'indent': ind}
-        fails, text = oracle_failures(impl, v, ind)
+        extra = {}
+        fails, text = oracle_failures(impl, v, ind, extra)
         nontrivial = isinstance(v, (list, dict)) and len(v) > 0
         st.case(case, nontrivial=nontrivial, tags=list(tags) + [f'indent={ind}', f'depth{depth_of(v)}'])
         for oracle, want, got in fails:
             ctx.witness(oracle, case, want, got)
         impl_out = {'text': text} if text is not None else {'error': fails[0][2].split(':')[0]}
         ctx.compare(stream, case, impl_out, {'text': resp.get('mirror', resp)})
+        if text is not None and extra.get('jsonStringify') != text:
+            ctx.disagree(stream, case, {'jsonStringify': str(extra.get('jsonStringify'))[:300]}, {'text': text[:300]},
+                         'library jsonStringify(v, indent) differs from value_json(v, int(indent))')
         if resp.get('mirror') != resp.get('spec'):
             ctx.disagree(stream, case, resp.get('mirror'), resp.get('spec'), 'inside the model: mirror encoder differs from spec encoder')
         if resp.get('wf') is not True:
